@@ -64,6 +64,28 @@ def gen(ctx):
     for frag in ("node.db.get_all_files(present=True, corrupt=True, unknown=True)", "if file in already_imported_files:", "import_file(node, queue, file, register, None)"):
         if frag not in sc:
             raise T.Untranslatable(f"UNTRANSLATABLE: scan no longer contains `{frag}`")
+    # the watchdog handler: dot-file and lock-file tests, the three event guards and what each hands to import_file
+    rf = "RegisterFile."
+    watoms = {"basename[0]": ("first_char", "str"), "path[-5:]": ("last5", "str"), "self._is_dotfile(path)": ("is_dot", "bool"), "event.is_directory": ("is_dir", "bool"),
+              "self._is_dotfile(event.src_path)": ("dot_src", "bool"), "self._is_dotfile(event.dest_path)": ("dot_dest", "bool"), "self._is_lock_file(event.src_path)": ("lock_src", "bool")}
+    d += [
+        T.return_expr(aut, rf + "_is_dotfile", {}, "g_is_dotfile", ["first_char"], atoms=watoms),
+        T.return_expr(aut, rf + "_is_lock_file", {}, "g_is_lock_file", ["last5", "is_dot"], atoms=watoms),
+        T.nth_test(aut, rf + "on_created", 0, {}, "g_on_created", ["is_dir", "dot_src"], atoms=watoms, expect_count=1),
+        T.nth_test(aut, rf + "on_moved", 0, {}, "g_on_moved", ["is_dir", "dot_dest"], atoms=watoms, expect_count=1),
+        T.nth_test(aut, rf + "on_deleted", 0, {}, "g_on_deleted", ["is_dir", "lock_src"], atoms=watoms, expect_count=1),
+    ]
+    for fn_, frags in (("_is_dotfile", ["basename = pathlib.PurePath(path).name"]),
+                       ("on_created", ["import_file(self.node, self.queue, pathlib.PurePath(event.src_path), True, None)"]),
+                       ("on_moved", ["import_file(self.node, self.queue, pathlib.PurePath(event.dest_path), True, None)"]),
+                       ("on_deleted", ["path = pathlib.Path(event.src_path)", "import_file(self.node, self.queue, path.with_name(path.name[1:-5]), True, None)"])):
+        txt = ast.unparse(T.find_func(aut, rf + fn_))
+        for frag in frags:
+            if frag not in txt:
+                raise T.Untranslatable(f"UNTRANSLATABLE: RegisterFile.{fn_} no longer contains `{frag}`")
+    lk = ast.unparse(T.find_func(T.parse(core.REPO / "alpenhorn/io/default.py"), "DefaultNodeIO.locked"))
+    if "return path.with_name('.' + path.name + '.lock').exists()" not in lk:
+        raise T.Untranslatable("UNTRANSLATABLE: DefaultNodeIO.locked no longer tests path.with_name('.' + path.name + '.lock')")
     return {"Gen_import": T.HEADER + "\n".join(d) + "\n"}
 
 
@@ -515,6 +537,33 @@ def explore_event_sequences(ctx, base, n):
     from watchdog.events import DirMovedEvent, FileCreatedEvent, FileDeletedEvent, FileMovedEvent
 
     rng = ctx.rng
+    eterms, ekeep, lterms, lkeep = [], [], [], []
+    handed = []
+    orig_import = AI.import_file
+
+    def rec_import(node_, queue_, path_, register_, req_):
+        handed.append((str(path_), register_, req_))
+        return orig_import(node_, queue_, path_, register_, req_)
+
+    def ev_term(ev):
+        kind = type(ev).__name__
+        d = cbool(ev.is_directory)
+        if "Moved" in kind:
+            return f"(Moved {d} {cstr(ev.src_path)} {cstr(ev.dest_path)})"
+        return f"({'Created' if 'Created' in kind else 'Deleted'} {d} {cstr(ev.src_path)})"
+
+    def fire(h_, method, ev):
+        handed.clear()
+        AI.import_file = rec_import
+        try:
+            getattr(h_, method)(ev)
+        finally:
+            AI.import_file = orig_import
+        if len(handed) > 1 or any(r is not True or q is not None for _, r, q in handed):
+            ctx.fail("C04:watchdog", f"{method}({ev}) called import_file {handed}", {"family": "event-sequence", "event": repr(ev)})
+        eterms.append(ctup(ev_term(ev), copt(handed[0][0] if handed else None, cstr, "str")))
+        ekeep.append((method, repr(ev), list(handed)))
+
     for k in range(n):
         shutil.rmtree(base, ignore_errors=True)
         w.fresh_db()
@@ -536,36 +585,55 @@ def explore_event_sequences(ctx, base, n):
             log.append((kind, f"{d}/{name}"))
             if kind == "created":
                 final.write_bytes(b"x" * j)
-                h.on_created(FileCreatedEvent(str(final)))
+                fire(h, "on_created", FileCreatedEvent(str(final)))
                 expect.add(f"{d}/{name}")
             elif kind == "created-dot":
                 (root / d / ("." + name)).write_bytes(b"x")
-                h.on_created(FileCreatedEvent(str(root / d / ("." + name))))
+                fire(h, "on_created", FileCreatedEvent(str(root / d / ("." + name))))
             elif kind == "moved-from-dot":
                 # how rsync and friends deliver a file: written under a temporary dot-name, then renamed into place
                 final.write_bytes(b"y" * j)
-                h.on_moved(FileMovedEvent(str(root / d / f".{name}.Xq3f"), str(final)))
+                fire(h, "on_moved", FileMovedEvent(str(root / d / f".{name}.Xq3f"), str(final)))
                 expect.add(f"{d}/{name}")
             elif kind == "moved-from-plain":
                 final.write_bytes(b"z" * j)
-                h.on_moved(FileMovedEvent(str(root / d / (name + ".part")), str(final)))
+                fire(h, "on_moved", FileMovedEvent(str(root / d / (name + ".part")), str(final)))
                 expect.add(f"{d}/{name}")
             elif kind == "moved-to-dot":
                 (root / d / ("." + name)).write_bytes(b"x")
-                h.on_moved(FileMovedEvent(str(final), str(root / d / ("." + name))))
+                fire(h, "on_moved", FileMovedEvent(str(final), str(root / d / ("." + name))))
             elif kind == "lock-deleted":
                 final.write_bytes(b"l" * j)
-                h.on_deleted(FileDeletedEvent(str(root / d / f".{name}.lock")))
+                fire(h, "on_deleted", FileDeletedEvent(str(root / d / f".{name}.lock")))
                 expect.add(f"{d}/{name}")
             elif kind == "lock-deleted-still-locked":
                 final.write_bytes(b"l")
                 (root / d / f".{name}.lock").write_bytes(b"")
-                h.on_created(FileCreatedEvent(str(final)))
+                fire(h, "on_created", FileCreatedEvent(str(final)))
             elif kind == "moved-dir":
                 (root / d / (name + "dir")).mkdir()
-                h.on_moved(DirMovedEvent(str(root / d / "olddir"), str(root / d / (name + "dir"))))
+                fire(h, "on_moved", DirMovedEvent(str(root / d / "olddir"), str(root / d / (name + "dir"))))
             else:
                 h.on_created(FileCreatedEvent(str(final)))  # the file is gone again before the import runs
+        # DefaultNodeIO.locked: which path does it look for beside the file
+        for (_, rel_) in log[:2]:
+            tested = []
+            orig_exists = pathlib.Path.exists
+
+            def rec_exists(self_, *a, **kw):
+                tested.append(str(self_))
+                return orig_exists(self_, *a, **kw)
+
+            pathlib.Path.exists = rec_exists
+            try:
+                unode.io.locked(pathlib.PurePath(rel_))
+            finally:
+                pathlib.Path.exists = orig_exists
+            if len(tested) == 1:
+                lterms.append(ctup(cstr(str(root / rel_)), cstr(tested[0])))
+                lkeep.append((rel_, tested[0]))
+            else:
+                ctx.fail("C04:watchdog", f"locked({rel_!r}) tested {tested}", {"family": "event-sequence", "locked": rel_})
         exits, aborted = w.drain_with_workers(queue)
         got = {f"{f.acq.name}/{f.name}" for f in w.ArchiveFile.select()}
         ncopies = w.ArchiveFileCopy.select().where(w.ArchiveFileCopy.has_file == "Y").count()
@@ -574,6 +642,12 @@ def explore_event_sequences(ctx, base, n):
         if got != expect or ncopies != len(expect) or aborted:
             ctx.fail("C04:watchdog", f"watchdog events {log}: registered {sorted(got)} with {ncopies} present copies, expected {sorted(expect)}; abort={aborted}", {"family": "event-sequence", "events": log})
             break
+    bad = core.run_cases(ctx, "events", "Corr.C04", "ecase", "echeck", eterms, shard=400, extra_imports=("Model.Watch",))
+    for i in bad[:3]:
+        ctx.broke("correspondence", f"watchdog handler: model and implementation differ on {ekeep[i]}")
+    bad = core.run_cases(ctx, "lockname", "Corr.C04", "lcase", "lcheck", lterms, shard=400, extra_imports=("Model.Watch",))
+    for i in bad[:3]:
+        ctx.broke("correspondence", f"lock-file name: model and implementation differ on {lkeep[i]}")
 
 
 def explore(ctx):
